@@ -212,7 +212,7 @@ def streams(ctx):
     # one corrupted header field in each message position
     base = (1, 17, 0)
     for posn in range(3):
-        for field, vals in (("protover", (0, 2)), ("mtype", (3, 0x7F)), ("code", (11, 0xFF)), ("length", tuple(range(8)))):
+        for field, vals in (("protover", (0, 2)), ("mtype", (3, 0x7F)), ("code", (11, 0xFF)), ("length", tuple(range(8)) + (65499, 65500, 65535, 0x10000, 0x01000000, 0x7FFFFFFF, 0x80000000, 0xFFFFFFFF))):
             for val in vals:
                 s = b"".join(message(i, pl, (field, val) if i == posn else None) for i, pl in enumerate(base))
                 out.append((f"corrupt-msg{posn}-{field}={val}", s, None, False))
